@@ -156,18 +156,21 @@ func distBetweenXYs(xy1, xy2 XY) float64 {
 func distBetweenXYAndLine(xy XY, ln line) float64 {
 	ab := ln.b.Sub(ln.a)
 	abLen := ab.Length()
-	proj := xy.Sub(ln.a).Dot(ab) / abLen
-	var closest XY
+	ap := xy.Sub(ln.a)
+	proj := ap.Dot(ab) / abLen
 	switch {
 	case proj < 0:
-		closest = ln.a
+		return distBetweenXYs(xy, ln.a)
 	case proj > abLen:
-		closest = ln.b
+		return distBetweenXYs(xy, ln.b)
 	default:
-		scaled := ab.Scale(proj / abLen)
-		closest = scaled.Add(ln.a)
+		// The closest point is the foot of the perpendicular. Measure the
+		// perpendicular distance directly (|ab x ap| / |ab|) rather than
+		// constructing the foot and subtracting it from xy: the subtraction
+		// cancels almost all significant digits when xy is close to the
+		// line relative to the magnitude of the coordinates.
+		return math.Abs(ab.Cross(ap)) / abLen
 	}
-	return distBetweenXYs(xy, closest)
 }
 
 func distBetweenLineAndLine(ln1, ln2 line) float64 {
